@@ -58,6 +58,7 @@ def main():
         assert rc == 0, "patch does not apply: " + out
         touched = sh(["git", "-C", wt, "diff", "--stat"])[1]
         meta["diffstat"] = touched.strip().split("\n")
+        shutil.rmtree(os.path.join(wt, "build"), ignore_errors=True)   # setup.py does not track #included templates
         build()
         rc1, out1 = sh([PY, demo], cwd=scratch, env=env, timeout=900)
         meta["demo_patched_rc"] = rc1
